@@ -34,6 +34,13 @@ def gen_void(rng):
 
 def run(ctx):
     q = ctx.quick()
+    # Tier B: WeakRing.tla (the void ring at access granularity: back()/fill/push_back(), front()/pop_front(), tail markers).  Refuted: the seeded
+    # change C12 (stale position in front()'s re-check); finding 7.11 as coded violates AllDelivered (liveness), with the tail published it holds
+    vlib.model_check_many(ctx, [dict(module_rel="queue/WeakRingMC.tla", cfg_rel="queue/WeakRing_q.cfg", workers=2),
+                                dict(module_rel="queue/WeakRingMC.tla", cfg_rel="queue/WeakRing_q2.cfg", workers=2),
+                                dict(module_rel="queue/WeakRingMC.tla", cfg_rel="queue/WeakRing_bad_stalefront.cfg", workers=2, expect_violation="Assert"),
+                                dict(module_rel="queue/WeakRingMC.tla", cfg_rel="queue/WeakRing_bad_bigrecord.cfg", workers=2, expect_violation="AllDelivered"),
+                                dict(module_rel="queue/WeakRingMC.tla", cfg_rel="queue/WeakRing_intended_bigrecord.cfg", workers=2)], par=5)
     deep = [("dfs", 8000 if q else 500000, 3 if q else 4)]
     vp = VOID_PROGRAMS + [gen_void(ctx.rng) for _ in range(2 if q else 12)]
     jobs = make_jobs(ctx, "ring", [v for v in TYPED if v not in SMALL], TYPED_PROGRAMS) + make_jobs(ctx, "ring", SMALL, SMALL_PROGRAMS) + make_jobs(ctx, "ring", VOID, vp) + make_jobs(ctx, "ring", VOID[:3], VOID2_PROGRAMS) + make_jobs(ctx, "ring", ["ring_void_64"], VOID_BIG) + \
